@@ -6,7 +6,7 @@ import copy
 import itertools
 import random
 
-from .gen import Gen, POINTS
+from .gen import Gen, PhasedGen, POINTS
 from .poolsim import Sim, run_sim
 from .shrink import shrink
 from .util import subseed
@@ -61,6 +61,7 @@ UNSTEER = {
     "F-LOCK": ("C01", "C02", "C03", "C05", "C06", "C07", "C09", "C10", "C11", "C14"),
 }
 QUICK_HRAND = 2000
+QUICK_PHASED = 3000
 
 SWEEP_STEPS = {
     "C01": ["spawn2", "cancel_all"],
@@ -126,6 +127,8 @@ def units(prop, tier, seed):
         for tag in un:
             for i in range(QUICK_HRAND):
                 yield ("hrand", (tag, subseed(seed, prop, "hrand", tag, i)), next(order))
+        for i in range(QUICK_PHASED):
+            yield ("phased", subseed(seed, prop, "phased", i), next(order))
         for i in range(QUICK_RANDOM):
             yield ("rand", subseed(seed, prop, "rand", i), next(order))
     else:
@@ -133,6 +136,9 @@ def units(prop, tier, seed):
         while True:
             for _ in range(50):
                 yield ("rand", subseed(seed, prop, "rand", i), next(order))
+                i += 1
+            for _ in range(15):
+                yield ("phased", subseed(seed, prop, "phased", i), next(order))
                 i += 1
             for tag in un:
                 for _ in range(8):
@@ -176,6 +182,12 @@ def exec_unit(prop, unit, agg):
         sim = Sim(run, {prop})
         sim.execute(g.next_step)
         _account(prop, sim, agg, order, "rand")
+    elif kind == "phased":
+        g = PhasedGen(arg, prop, True)
+        run = {"prop": prop, "seed": arg, "clean": True, "config": g.make_config(), "steps": [], "phased": True}
+        sim = Sim(run, {prop})
+        sim.execute(g.next_step)
+        _account(prop, sim, agg, order, "phased")
     elif kind == "hrand":
         tag, sd = arg
         g = Gen(sd, prop, False)
